@@ -111,8 +111,8 @@ def _sign(fn, t, env):
             return '?'
     if h == 'L' and t[1] in env:
         return env[t[1]]
-    if h == 'call' and t[1] in ('abs', 'sqrt', 'fabs', 'norm'):
-        return '>=0'
+    if h == 'call' and t[1] in ('abs', 'sqrt', 'fabs', 'norm', 'epsilon', 'min'):
+        return '>=0'          # numeric_limits / NumTraits epsilon() and min() are positive constants
     if h == 'call' and t[1] in ('max',) and len(t) == 4:
         a, b = _sign(fn, t[2], env), _sign(fn, t[3], env)
         return '>=0' if '>=0' in (a, b) else '?'
@@ -173,7 +173,7 @@ def exact_conventions(ctx, rule='exact-real-and-conjugate-pair-convention'):
                     problems.append('the two members of a pair have different real parts')
                 if not (z1 == ('u-', z0)):
                     problems.append('second member is (a, %s), not the exact conjugate (a, -%s)' % (show(z1), show(z0)))
-                # z >= 0: z is a local assigned once from a product of non-negative factors
+                # z >= 0: every assignment of the local z is a product of non-negative factors
                 if z0[0] == 'L':
                     zas = [sym(fn, x, inline=False) for x in fn.walk() if x['k'] == 'BinaryOperator' and x.get('op') == '=' and sym(fn, x['c'][0], inline=False) == z0]
                     env = {}
@@ -182,7 +182,7 @@ def exact_conventions(ctx, rule='exact-real-and-conjugate-pair-convention'):
                             for dd in d['decls']:
                                 if 'init' in dd:
                                     env[fn.locals[dd['var']]['name']] = _sign(fn, sym(fn, dd['init'], inline=False), env)
-                    if len(zas) != 1 or _sign(fn, zas[0][2], env) != '>=0':
+                    if not zas or any(_sign(fn, a_[2], env) != '>=0' for a_ in zas):
                         problems.append('imaginary part %s is not provably non-negative (%s)' % (show(z0), [show(a[2]) for a in zas]))
                 else:
                     problems.append('imaginary part is not a variable')
@@ -250,6 +250,82 @@ def block_classification(ctx, rule='2x2-block-classification-exhaustive'):
                         problems.append('sqrt of %s' % show(a))
         ctx.check(not problems, rule, 'UpperHessenbergSchur::split_off_two_rows', fn.qname,
                   'block reduced to triangular form exactly when the discriminant is >= 0 (zero included)' if not problems else '; '.join(problems))
+
+
+def kept_block_is_a_complex_pair(ctx, rule='kept-2x2-block-emitted-as-complex-pair'):
+    """Three places classify a diagonal 2x2 block of the quasi-triangular factor and must agree.  The Schur class keeps the block
+    iff ITS discriminant p^2 + bc is negative.  The Hessenberg eigen-solver recognises a kept block by its non-zero sub-diagonal
+    entry and stores the pair (re, +z), (re, -z) with z = sqrt|p'^2 + b'c'| recomputed from rescaled operands -- a differently
+    rounded expression that can come out exactly zero for a (nearly) defective block.  The eigenvector routines classify by
+    `imaginary part == 0` and then back-substitute as if T were triangular at that position, ignoring the non-zero sub-diagonal
+    entry: wrong eigenvectors for the block and for every column whose back-substitution passes through it.  So: in the branch
+    that handles a kept block, the imaginary part that is stored is guaranteed non-zero -- the store is dominated by a test of
+    z against zero whose true branch assigns z a positive quantity."""
+    from . import paths
+    fns = ctx.F.insts('Spectra::UpperHessenbergEigen::compute')
+    if not fns:
+        raise AnalysisBroken('UpperHessenbergEigen::compute not instantiated')
+    seen = set()
+    n = 0
+    for fn in fns:
+        if fn.mangled in seen or not fn.cfg:
+            continue
+        seen.add(fn.mangled)
+        # stores  m_eivalues(i) = Complex(re, z)  with a non-literal imaginary part
+        stores = []
+        for x in fn.walk():
+            if x['k'] in ('BinaryOperator', 'CXXOperatorCallExpr') and x.get('op') == '=':
+                t = sym(fn, x, inline=False)
+                if isinstance(t[1], tuple) and t[1][0] in ('coeffRef', '()', '[]') and t[1][1] == ('F', 'm_eivalues') and isinstance(t[2], tuple) and t[2][0] == 'ctor' and len(t[2]) == 4:
+                    im = t[2][3]
+                    if im[0] == 'u-':
+                        im = im[1]
+                    if im[0] == 'L':
+                        stores.append((x, im))
+        if len(stores) < 2:
+            raise AnalysisBroken('%s: stores of a complex pair not found' % fn.qname)
+        n += 1
+        probs = []
+        for x, im in stores:
+            # a test  z == 0 / z <= 0 / !(z > 0)  whose true branch assigns z a positive product, dominating the store
+            ok = False
+            for i in fn.walk():
+                if i['k'] != 'IfStmt':
+                    continue
+                c = sym(fn, i['cond'], inline=False)
+                zero_test = (c[0] == '==' and im in c[1:] and ('lit', '0') in c[1:]) or (c[0] == '<=' and c[1] == im and c[2] == ('lit', '0')) or \
+                    (c[0] == '!' and isinstance(c[1], tuple) and c[1][0] == '<' and c[1][1] == ('lit', '0') and c[1][2] == im)
+                if not zero_test:
+                    continue
+                asg = [y for y in fn.walk(i['then']) if y['k'] == 'BinaryOperator' and y.get('op') == '=' and sym(fn, y['c'][0], inline=False) == im]
+                if len(asg) != 1:
+                    continue
+                rhs = sym(fn, asg[0]['c'][1], inline=False)
+                factors = list(rhs[1:]) if rhs[0] == '*' else [rhs]
+
+                def positive(u):
+                    if u[0] == 'lit':
+                        try:
+                            return float(u[1]) > 0
+                        except ValueError:
+                            return False
+                    if u[0] == 'call' and u[1] in ('epsilon', 'min', 'abs', 'max', 'lowest') and u[1] != 'lowest':
+                        return u[1] in ('epsilon', 'min') or True
+                    if u[0] == 'L' and u[1] in ('maxval',):
+                        return True
+                    return False
+                if all(positive(u) for u in factors) and any(u[0] != 'call' or u[1] != 'abs' for u in factors) and \
+                        paths.dominated_by(fn, fn.pos_of(x), lambda n_, i=i: fn.within(n_, i['cond'])):
+                    ok = True
+            if not ok:
+                probs.append('`%s`' % fn.s(x)[:60])
+        ctx.check(not probs, rule, 'UpperHessenbergEigen::compute', fn.qname,
+                  'every complex pair stored for a kept 2x2 block has an imaginary part that is tested against zero and replaced by a positive rounding-level quantity' if not probs else
+                  'the imaginary part stored by %s is the recomputed sqrt|p^2 + bc|, which is exactly zero for a (nearly) defective block although the Schur factor keeps the block (non-zero sub-diagonal '
+                  'entry): the eigenvector routines classify by `imag == 0`, take the pair for two real eigenvalues and back-substitute as if T were triangular there -- wrong eigenvectors '
+                  '(residual O(1)) for the block and for the columns that pass through it' % ', '.join(probs[:2]))
+    if n < 1:
+        raise AnalysisBroken('no instantiation analysed')
 
 
 def exceptional_shift_accounting(ctx, rule='exceptional-shift-covers-active-diagonal'):
@@ -587,3 +663,4 @@ def run(ctx):
     exceptional_shift_accounting(ctx)
     exact_conventions(ctx)
     block_classification(ctx)
+    kept_block_is_a_complex_pair(ctx)
